@@ -98,7 +98,7 @@ impl Profile {
             dump_arrays: false,
             long_strings: true,
             site_tagged: false,
-            w_clobber: 2,
+            w_clobber: 6,
             w_illtyped_dead: 0,
             w_namesake: 0,
         }
@@ -1179,9 +1179,18 @@ impl Gen<'_> {
         };
         let call = self.make_call(si, fi, dec, 1);
         let fret = self.scopes[si].funcs[fi].ret.clone();
-        let e = match self.tape.choose(4) {
+        let e = match self.tape.choose(6) {
             // concatenation where the types allow it
             0 if v.ty == Ty::Str && matches!(fret, Ty::Str | Ty::Num) => Expr::bin(BinOp::Add, read, call),
+            // the array is read before its index expression runs: `v[f() times 0]`
+            4 if matches!(v.ty, Ty::Arr(_)) && v.min_len >= 1 && fret == Ty::Num => Expr::index(
+                Expr::Var(v.name.clone()),
+                Expr::bin(BinOp::Times, call, Expr::Num(0.0)),
+            ),
+            // a string receiver is read before the method's arguments run
+            5 if v.ty == Ty::Str && fret == Ty::Str => {
+                Expr::method(Expr::Var(v.name.clone()), "replace", vec![call, Expr::str("#")])
+            }
             // receiver evaluated before the argument
             1 if matches!(&v.ty, Ty::Arr(e) if matches!(**e, Ty::Str | Ty::Num)) && fret == Ty::Str => {
                 Expr::method(Expr::Var(v.name.clone()), "join", vec![call])
